@@ -63,6 +63,15 @@ Theorem C09_xml_mirrors : forall o t b,
 Proof. exact xml_mirrors. Qed.
 Print Assumptions C09_xml_mirrors.
 
+(* the isomorphism spelled out: the element tree read back has the skeleton of the node tree (one
+   element per node, named by its kind, same order and nesting; names determine kinds by
+   C09_names_injective) *)
+Theorem C09_xml_iso : forall o t b,
+  shape_ok t = true -> xml o t = Ok b ->
+  exists x, xml_read b = Some x /\ xshape x = kshape t.
+Proof. exact xml_iso. Qed.
+Print Assumptions C09_xml_iso.
+
 (* the two halves separately: the model writes the generic writer's rendering of the mirror tree,
    and the reader inverts the generic writer on every well-formed element tree *)
 Theorem C09_xml_is_write : forall o t,
